@@ -41,6 +41,21 @@ CHECKS = {
         "from the unrotated observed graph.",
    design_ref="5/C14", technique="TLA+ rotation theorem checked by TLC + metamorphic runs of the real code validated by TLC",
    note="Rotation is performed on the selected kernel lines (labels/directives move with the lines)."),
+
+ "C17": dict(
+   category="model_checking",
+   text="TLC exhaustively checks MC_ModelCache (2 processes, 2 contents, 4-cell cache files, crashes at any step, concurrent edits, read-only directory, foreign / old-version / legacy-partial cache files): "
+        "the protocol now in the code (atomic write, tolerant read, read once) satisfies RunNeverFails, ResultIsContent, StaleNeverServed, NoPartialVisible; the configurations with the former deviations give the "
+        "counterexamples that were reproduced on the code (F10, F24). A transition cover of the sequential-history and two-cold-starter graphs is executed on real loader processes held at every file-system interaction, "
+        "and seeded API-level histories over 13 model files are validated by Trace_ModelCache.",
+   design_ref="5/C17, 10.3", technique="TLA+ cache protocol spec with named deviations + TLC exhaustive checking + TLC-emitted transition cover replayed on real loader processes + batch trace validation",
+   note="Trusts the hook wrappers in harness/cache_common.py (substituted Path/open/os/pickle of hw_model inside the child), sha256 modelled as injective, setpriv for the read-only directory, projection of a report to a content id."),
+ "C18": dict(
+   category="model_checking",
+   text="TLC enumerates all 585 call histories of length <= 3 over 8 request kinds and checks that each report is a function of the request and shared state is unchanged (with the deviations model-reuse + in-place mutation it "
+        "produces the history <rmw, rmw>). Every history is replayed in one interpreter state (fork tree) through osaca.osaca.run and compared element-wise with fresh-process reports; seeded histories <= 12 are validated by Trace_Session.",
+   design_ref="5/C18, 10.3", technique="TLA+ session spec + TLC enumeration of all histories + fork-tree replay in one interpreter + batch trace validation",
+   note="TLC acts mainly as enumerator/evaluator here (DESIGN section 8); a fork() continuation is taken to be the same interpreter state."),
  "C12": dict(
    category="model_checking",
    text="TLC enumerates every ordered pair of register names of both ISAs (MC_RegAlias: equivalence relation, family sizes), "
